@@ -96,7 +96,16 @@ class DependencyBuilder:
     ) -> Dependencies:
         results = Dependencies()
         for dependant in dependant_types:
-            if isinstance(dependant, pydsdl.UnionType):
+            # A delimited (non-sealed) union is a DelimitedType wrapping the UnionType; a service has two candidates.
+            candidates = (
+                [dependant.request_type, dependant.response_type]
+                if isinstance(dependant, pydsdl.ServiceType)
+                else [dependant]
+            )
+            if any(
+                isinstance(c.inner_type if isinstance(c, pydsdl.DelimitedType) else c, pydsdl.UnionType)
+                for c in candidates
+            ):
                 # Unions always require integer for the tag field.
                 results.uses_integer = True
                 results.uses_union = True
